@@ -30,6 +30,7 @@ type WeightedMerkleTrie struct {
 	deleted     map[[32]byte]bool
 	tempDeleted [][]byte
 	created     [][]byte
+	saved       [][]byte
 	sync.Mutex
 }
 
@@ -550,11 +551,13 @@ func (t *WeightedMerkleTrie) commit(node Node, batcher storage.Batcher, collapse
 // for deletion: a node that was dropped earlier in the same collection window
 // and exists again (same hash) is live.
 func (t *WeightedMerkleTrie) unstageCreated() {
-	if len(t.tempDeleted) == 0 || len(t.created) == 0 {
+	saved := t.saved
+	t.saved = nil
+	if len(t.tempDeleted) == 0 || len(saved) == 0 {
 		return
 	}
-	created := make(map[string]struct{}, len(t.created))
-	for _, hash := range t.created {
+	created := make(map[string]struct{}, len(saved))
+	for _, hash := range saved {
 		created[string(hash)] = struct{}{}
 	}
 	kept := t.tempDeleted[:0]
@@ -581,6 +584,7 @@ func commonPrefix(a, b []byte) int {
 
 func (t *WeightedMerkleTrie) collectDeleteAndCreated(deleteChan, createdChan chan []byte, wg *sync.WaitGroup) {
 	t.created = nil
+	t.saved = nil
 	wg.Add(2)
 	go func() {
 		for hash := range deleteChan {
@@ -596,6 +600,14 @@ func (t *WeightedMerkleTrie) collectDeleteAndCreated(deleteChan, createdChan cha
 			var k [32]byte
 			copy(k[:], hash)
 			delete(t.deleted, k)
+			t.saved = append(t.saved, hash)
+			// only a node that storage does not hold yet is created by this commit
+			// (the batch is not written at this point); a node saved again with an
+			// unchanged hash belongs to the state before the commit as well and
+			// must survive a rollback
+			if _, err := t.db.Get(hash); err == nil {
+				continue
+			}
 			t.created = append(t.created, hash)
 		}
 		wg.Done()
